@@ -240,13 +240,20 @@ func (s *state) current() int {
 // registry; a current request with no download, or with fewer than `conc` while the requestor
 // still accepts, is about to request (or to give up); downloads of finished requests must drain.
 func (s *state) rest() (string, bool) {
-	deadline := time.Now().Add(8 * time.Second)
-	var undrainedSince time.Time
+	// a budget of harness running time (see hx.Until): CPU starvation lengthens the wait
+	budget := 8 * time.Second
+	undrained := time.Duration(0) // harness running time spent waiting for finished requests to drain
 	last := ""
 	lastAcc := int32(-1)
 	stable := 0
-	for time.Now().Before(deadline) {
+	for budget > 0 {
+		t0 := time.Now()
 		time.Sleep(time.Millisecond)
+		if el := time.Since(t0); el > 2*time.Millisecond {
+			budget -= 2 * time.Millisecond
+		} else {
+			budget -= el
+		}
 		snap := s.snapshot()
 		acc := atomic.LoadInt32(&s.accepted)
 		if snap == last && acc == lastAcc {
@@ -311,10 +318,8 @@ func (s *state) rest() (string, bool) {
 		if !drained {
 			// downloads of finished requests normally drain within milliseconds; after 2 s at an
 			// otherwise resting manager report what is there (stale=N) instead of waiting on
-			if undrainedSince.IsZero() {
-				undrainedSince = time.Now()
-			}
-			if time.Since(undrainedSince) < 2*time.Second {
+			undrained += time.Millisecond
+			if undrained < 2*time.Second {
 				continue
 			}
 		}
